@@ -124,6 +124,8 @@ func c16Shape(shape string, n int) *lib.Build {
 		}
 		file("a-big.bin", data)
 		file("z-small.bin", bytes.Repeat([]byte{5, 6, 7, 8}, 25))
+	case "sizes": // one file per size class around the block size, zero-length files first / middle / last / in a dir
+		c16SizesShape(b)
 	case "empty":
 	}
 	sort.Slice(b.Entries, func(i, j int) bool { return b.Entries[i].Path < b.Entries[j].Path })
@@ -131,9 +133,15 @@ func c16Shape(shape string, n int) *lib.Build {
 }
 
 // c16Damage derives the on-disk tree from the signed build. lastFile / firstFile are the
-// paths of the last / first file of the container (validation order).
-func c16Damage(signed *lib.Build, damage, firstFile, lastFile string) (tree *lib.Build, writeRoot bool) {
+// paths of the last / first file of the container (validation order), files all of them.
+func c16Damage(signed *lib.Build, damage, firstFile, lastFile string, files []string) (tree *lib.Build, writeRoot bool) {
 	t := signed.Clone()
+	if o, ok := c16ParseOne(damage); ok { // one file damaged, everything else intact (c16_onefile.go)
+		if o.idx >= 0 && o.idx < len(files) {
+			c16ApplyOne(t, files[o.idx], o)
+		}
+		return t, true
+	}
 	mod := func(kind string, f func(e *lib.Entry) *lib.Entry) {
 		var out []lib.Entry
 		for i := range t.Entries {
@@ -261,6 +269,8 @@ func c16Damage(signed *lib.Build, damage, firstFile, lastFile string) (tree *lib
 		}
 	case "root-missing":
 		return t, false
+	case "empties-filled", "cut-at-boundary":
+		c16ApplyClass(t, damage)
 	}
 	return t, true
 }
@@ -379,7 +389,8 @@ type c16Base struct {
 	nFiles    int
 	nDirs     int
 	nLinks    int
-	blocksPer []int // number of 64 KiB blocks per file, container order
+	blocksPer []int    // number of 64 KiB blocks per file, container order
+	paths     []string // file paths, container order
 }
 
 func c16Prepare(c *Ctx, shape string, n int) (*c16Base, error) {
@@ -398,6 +409,7 @@ func c16Prepare(c *Ctx, shape string, n int) (*c16Base, error) {
 	b.nFiles, b.nDirs, b.nLinks = len(sig.Container.Files), len(sig.Container.Dirs), len(sig.Container.Symlinks)
 	for _, f := range sig.Container.Files {
 		b.blocksPer = append(b.blocksPer, int((f.Size+lib.BS-1)/lib.BS))
+		b.paths = append(b.paths, f.Path)
 	}
 	if b.nFiles > 0 {
 		b.first = sig.Container.Files[0].Path
@@ -421,7 +433,7 @@ type c16Tree struct {
 func c16Run(c *Ctx, b *c16Base, s c16Scn, target string, cur *c16Tree) (*c16Obs, error) {
 	key := fmt.Sprintf("%s-%d-%s", s.Shape, s.N, s.Damage)
 	if cur.key != key {
-		tree, writeRoot := c16Damage(b.signed, s.Damage, b.first, b.last)
+		tree, writeRoot := c16Damage(b.signed, s.Damage, b.first, b.last, b.paths)
 		os.RemoveAll(target)
 		if writeRoot {
 			if err := tree.WriteTo(target); err != nil {
@@ -685,8 +697,12 @@ func c16Abstract(b *c16Base, s c16Scn) string {
 		preItems = append(preItems, "PErr")
 	}
 	// per-file behaviour of doOne, container order
+	one, isOne := c16ParseOne(s.Damage)
 	kind := func(i int) string {
 		blocks := b.blocksPer[i]
+		if isOne && i == one.idx {
+			return c16OneModel(blocks, b.sig.Container.Files[i].Size, one)
+		}
 		first, last := i == 0, i == b.nFiles-1
 		hb := blocks
 		if hb > 3 {
@@ -767,12 +783,25 @@ func c16Abstract(b *c16Base, s c16Scn) string {
 				}
 			}
 			return fmt.Sprintf("(FData %s FMNone [])", lib.CoqList(ms))
+		case "empties-filled":
+			if blocks == 0 {
+				return bad(true)
+			}
+		case "cut-at-boundary":
+			if sz := b.sig.Container.Files[i].Size; sz > lib.BS {
+				k := int((sz - 1) / lib.BS)
+				if k > 2 {
+					k = 2
+				}
+				return fmt.Sprintf("(fdata %d false FMShort)", k)
+			}
 		}
 		return healthy
 	}
 	var files []string
 	n := b.nFiles
 	m := c16Scale(n)
+	var idxs []int
 	for j := 0; j < m; j++ { // model file j stands for Go file: first, some middle ones, last
 		i := j
 		if j == m-1 {
@@ -783,6 +812,35 @@ func c16Abstract(b *c16Base, s c16Scn) string {
 		if i < 0 {
 			i = 0
 		}
+		idxs = append(idxs, i)
+	}
+	if c16Confined(s.Damage) {
+		// damage confined to one file / one class of files: the first damaged file must be one of the
+		// model's files (in its place: what matters is whether files come before and after it)
+		healthyKind := func(i int) string {
+			hb := b.blocksPer[i]
+			if hb > 3 {
+				hb = 3
+			}
+			return fmt.Sprintf("(fdata %d false FMNone)", hb)
+		}
+		has, firstBad := false, -1
+		for i := 0; i < n && firstBad < 0; i++ {
+			if kind(i) != healthyKind(i) {
+				firstBad = i
+			}
+		}
+		for _, i := range idxs {
+			if kind(i) != healthyKind(i) {
+				has = true
+			}
+		}
+		if !has && firstBad >= 0 {
+			idxs = append(idxs, firstBad)
+			sort.Ints(idxs)
+		}
+	}
+	for _, i := range idxs {
 		files = append(files, kind(i))
 	}
 	if s.Consumer == "writer-limit" {
@@ -863,6 +921,9 @@ func runC16(c *Ctx) error {
 			hung = true // leaked goroutines: later measurements would not be trustworthy
 		}
 		cls := fmt.Sprintf("%s/%s/%s/%s", s.Shape, s.Damage, s.Consumer, s.Cancel)
+		if one, ok := c16ParseOne(s.Damage); ok && one.idx < b.nFiles {
+			cls = fmt.Sprintf("%s/%s/%s/%s", s.Shape, c16OneClass(one, int(b.sig.Container.Files[one.idx].Size), one.idx, b.nFiles), s.Consumer, s.Cancel)
+		}
 		if corpus != "" {
 			cls = "corpus:" + corpus
 		}
@@ -871,7 +932,7 @@ func runC16(c *Ctx) error {
 			total += nb // one channel message (marker or wound) per block at most
 		}
 		cs := &lib.Case{Group: "proto", Class: cls,
-			Nontrivial: (o.Damaged && (s.Cancel != "none" || total > 1024 || strings.HasPrefix(s.Damage, "last"))) ||
+			Nontrivial: (o.Damaged && (s.Cancel != "none" || total > 1024 || strings.HasPrefix(s.Damage, "last") || c16Confined(s.Damage))) ||
 				(total > 1024 && s.Cancel != "none"),
 			Input: s, Obs: o, Oracle: oracle,
 			Coq: fmt.Sprintf("($ID%%N, %s, %s)", c16Abstract(b, s), map[string]string{"ok": "ONil", "error": "OErr", "panic": "OPanic", "hang": "OHang"}[o.Class])}
@@ -907,10 +968,60 @@ func runC16(c *Ctx) error {
 		{"nil-early/writer-cancelled-before-1200-dir-wounds", c16Scn{"dirs", 1200, "dirs-missing", "writer", "before", 0, 4, 0}},
 		{"nil-early/printer-cancelled-before-1200-link-wounds", c16Scn{"links", 1200, "links-retarget", "printer", "before", 0, 1, 0}},
 		{"nil-early/printer-cancelled-at-the-5th-message", c16Scn{"links", 1200, "links-retarget", "printer", "message", 5, 16, 0}},
+		// seeded C16-6 (the healer's Do blocks in its own deferred join once the heal goroutine's only error was
+		// already received by the FILE-wound select): a healer whose heal goroutine fails at once, many
+		// wounded files still to come
+		{"healer/archive-missing-40-wounded-files", c16Scn{"files", 40, "files-flip", "healer-noarchive", "none", 0, 4, 0}},
+		{"healer/archive-corrupt-40-missing-files", c16Scn{"files", 40, "files-missing", "healer-corrupt", "none", 0, 1, 0}},
+		{"healer/archive-missing-1100-wounded-files", c16Scn{"files", 1100, "files-flip", "healer-noarchive", "none", 0, 16, 0}},
 	}
 	for _, x := range corpus {
 		if err := emit(x.s, x.name); err != nil {
 			return err
+		}
+	}
+	// seeded C16-8 / C16-9 (a false 'valid' that needs a tree whose ONLY defect is a zero-length file
+	// with content / a file cut exactly at a block boundary), then the one-file sweep: every file of
+	// the 'sizes' build x every way it can stop matching (c16_onefile.go), fail-fast, nothing else wrong
+	if c.Tier != "search" {
+		sz, err := base("sizes", 1)
+		if err != nil {
+			return err
+		}
+		idxOf := func(p string) int {
+			for i, q := range sz.paths {
+				if q == p {
+					return i
+				}
+			}
+			return 0
+		}
+		for _, x := range []struct{ name, path, dmg string }{
+			{"one-file/zero-length-file-has-content", "m-empty", "grow:1"},
+			{"one-file/cut-at-a-block-boundary", "b06", fmt.Sprintf("cut:%d", 2*lib.BS)},
+			{"one-file/cut-at-a-block-boundary-of-an-exact-multiple", "n08", fmt.Sprintf("cut:%d", 4*lib.BS)},
+		} {
+			s := c16Scn{Shape: "sizes", N: 1, Damage: fmt.Sprintf("one:%d:%s", idxOf(x.path), x.dmg), Consumer: "guardian", Cancel: "none", Procs: 4}
+			if err := emit(s, x.name); err != nil {
+				return err
+			}
+		}
+		k := 0
+		for i := range sz.paths {
+			for _, d := range c16OneDamages(int(sz.sig.Container.Files[i].Size)) {
+				for rep := 0; rep < 1 || (c.Thorough() && rep < 3); rep++ { // thorough: every GOMAXPROCS value
+					s := c16Scn{Shape: "sizes", N: 1, Damage: fmt.Sprintf("one:%d:%s", i, d), Consumer: "guardian", Cancel: "none", Procs: []int{4, 1, 16}[(k+rep)%3]}
+					if err := emit(s, ""); err != nil {
+						return err
+					}
+				}
+				k++
+			}
+		}
+		for _, d := range []string{"empties-filled", "cut-at-boundary"} {
+			if err := emit(c16Scn{Shape: "sizes", N: 1, Damage: d, Consumer: "guardian", Cancel: "none", Procs: 4}, ""); err != nil {
+				return err
+			}
 		}
 	}
 
@@ -992,17 +1103,18 @@ func runC16(c *Ctx) error {
 		n     int
 	}
 	shapes := []shp{{"files", 1100}, {"files", 1100}, {"dirs", 1200}, {"links", 1200}, {"mixed", 420}, {"blocks", 8}, {"files", 40}, {"files", 2}, {"files", 1}, {"empty", 0},
-		{"dirs", 2400}, {"links", 2200}}
+		{"dirs", 2400}, {"links", 2200}, {"sizes", 1}, {"sizes", 1}}
 	if c.Thorough() { // (a bigfile tree is 70 MB to write and read back: quick runs have it in the sweep only)
 		shapes = append(shapes, shp{"bigfile", 1100}, shp{"files", 1500}, shp{"files", 3000}, shp{"mixed", 1100}, shp{"blocks", 40}, shp{"files", 1025}, shp{"dirs", 1024})
 	}
 	damagesFor := map[string][]string{
-		"files":   {"none", "files-flip", "files-missing", "files-short", "files-long", "files-asdir", "last-flip", "last-missing", "last-short", "first-flip", "root-missing"},
+		"files":   {"none", "files-flip", "files-missing", "files-short", "files-long", "files-asdir", "last-flip", "last-missing", "last-short", "first-flip", "root-missing", "one-random"},
 		"dirs":    {"none", "dirs-missing", "dirs-asfile", "last-flip", "root-missing", "everything", "parent-asfile"},
 		"links":   {"none", "links-retarget", "links-missing", "links-asfile", "last-missing", "root-missing", "everything"},
-		"mixed":   {"none", "everything", "files-flip", "dirs-missing", "links-retarget", "links-missing", "last-flip", "root-missing", "parent-asfile"},
-		"blocks":  {"none", "files-flip", "files-short", "files-long", "files-missing", "last-flip", "last-short", "first-flip", "firstblock-flip", "blocks-alternate"},
-		"bigfile": {"none", "files-flip", "files-short", "files-long", "files-missing", "last-flip", "first-flip", "firstblock-flip", "blocks-alternate"},
+		"mixed":   {"none", "everything", "files-flip", "dirs-missing", "links-retarget", "links-missing", "last-flip", "root-missing", "parent-asfile", "one-random"},
+		"blocks":  {"none", "files-flip", "files-short", "files-long", "files-missing", "last-flip", "last-short", "first-flip", "firstblock-flip", "blocks-alternate", "one-random", "one-random", "empties-filled", "cut-at-boundary"},
+		"bigfile": {"none", "files-flip", "files-short", "files-long", "files-missing", "last-flip", "first-flip", "firstblock-flip", "blocks-alternate", "one-random", "cut-at-boundary"},
+		"sizes":   {"none", "one-random", "one-random", "one-random", "one-random", "empties-filled", "cut-at-boundary", "files-flip", "files-short", "files-long", "last-missing", "root-missing"},
 		"empty":   {"none", "root-missing"},
 	}
 	// consumers that do not write into the target first, so that one tree serves the group
@@ -1019,6 +1131,15 @@ func runC16(c *Ctx) error {
 		sh := shapes[tr.Intn(len(shapes))]
 		ds := damagesFor[sh.shape]
 		damage := ds[tr.Intn(len(ds))]
+		if damage == "one-random" { // one file of the build, one of the ways it can stop matching
+			b, err := base(sh.shape, sh.n)
+			if err != nil {
+				return err
+			}
+			idx := tr.Intn(b.nFiles)
+			od := c16OneDamages(int(b.sig.Container.Files[idx].Size))
+			damage = fmt.Sprintf("one:%d:%s", idx, od[tr.Intn(len(od))])
+		}
 		per := 5
 		for k := 0; k < per && !hung; k++ {
 			cr := tr.Fork()
